@@ -62,6 +62,7 @@ def node_tree():
     return _TREE
 
 
+_PIQ = [False]        # judge with quoted PI targets (classification only)
 _REL = [False]        # relative-operand mode: node operands are written relative to the context item /r
 
 
@@ -1125,7 +1126,15 @@ def classify(judgement, judge, spec, items, st, dec, model, depth=0):
         return pre + 'parenthesized-item-type/' + (dec if not isinstance(dec, bool) else 'wrong-verdict')
     if depth == 0 and judge(spec, st) != dec:
         # the same type in canonical spelling (no optional whitespace, unquoted PI target) is judged differently
-        return pre + 'spelling-sensitive/%s' % ('empty-sequence()' if st[0] == 'empty' else key_shape(st[1], True))
+        shape = 'empty-sequence()' if st[0] == 'empty' else key_shape(st[1], True)
+        _PIQ[0] = True          # canonical whitespace, quoted PI targets
+        try:
+            quoted = judge(spec, st)
+        finally:
+            _PIQ[0] = False
+        if quoted == dec and "processing-instruction('" in M.render(st, PREFIXES, M.no_space, True):
+            return pre + 'spelling-sensitive/quoted-pi-target/%s' % shape
+        return pre + 'spelling-sensitive/optional-whitespace/%s' % shape
     if not isinstance(dec, bool):
         return error_key(pre, judge, spec, st, dec)[0]
     if st[0] == 'empty':
@@ -1286,18 +1295,18 @@ def _run_judge(case, out):
         lhs = vexpr
 
     def judge_io(vs, t):
-        return decision(E.call(evalx, '%s instance of %s' % (value_expr(vs), M.render(t, PREFIXES)), ver))
+        return decision(E.call(evalx, '%s instance of %s' % (value_expr(vs), M.render(t, PREFIXES, M.no_space, _PIQ[0])), ver))
 
     def judge_ta(vs, t):
-        return ta_decision(E.call(evalx, '%s treat as %s' % (value_expr(vs), M.render(t, PREFIXES)), ver))
+        return ta_decision(E.call(evalx, '%s treat as %s' % (value_expr(vs), M.render(t, PREFIXES, M.no_space, _PIQ[0])), ver))
 
     def judge_api(vs, t):
         o1 = E.call(evalx, value_expr(vs), ver)
         if o1[0] != 'ok':
             return 'value-failed'
         v1 = as_list(o1[1])
-        return decision(E.call(match_sequence_type, v1[0] if len(v1) == 1 else v1, M.render(t, PREFIXES),
-                               E.PARSERS[ver](namespaces=NS)))
+        return decision(E.call(match_sequence_type, v1[0] if len(v1) == 1 else v1,
+                               M.render(t, PREFIXES, M.no_space, _PIQ[0]), E.PARSERS[ver](namespaces=NS)))
 
     # ---- instance of
     io_key = None
@@ -1680,6 +1689,10 @@ CTX_ITEMS = {'doc': '/', 'elem': '/r/a[1]', 'root-elem': '/r', 'attr': '/r/@a', 
              'atomic': None, 'none': None}
 
 
+NUMERIC_PROBES = ["xs:float('1.5')", "xs:double('1.5')", "xs:decimal('1.5')", "xs:integer('2')", "xs:short('2')",
+                  "xs:float('-0')", "xs:float('INF')"]
+
+
 def signatures(ver):
     """[(qname text, arity, signature text)] sorted"""
     sigs = E.PARSERS[ver].function_signatures
@@ -1729,6 +1742,16 @@ def g_sig_calls(r, ver, fn, arity, text, count):
         ctx = r.choice(['elem', 'elem', 'doc', 'root-elem', 'attr', 'text']) if arity == 0 or r.random() < 0.2 \
             else 'elem'
         cases.append({'ver': ver, 'fn': fn, 'arity': arity, 'args': args, 'via': via, 'ctx': ctx})
+    # systematic probe: every numeric representation where the signature takes any atomic or numeric value
+    # (a function that passes its argument through must still return its declared type)
+    for i, p in enumerate(params):
+        if p[0] == 'seq' and p[1][0] == 'atomic' and p[1][1] in ('anyAtomicType', 'numeric'):
+            for probe in NUMERIC_PROBES:
+                args = []
+                for k, q in enumerate(params):
+                    hint = HINTS.get((fn, k)) if (fn, k) in HINTS else HINTS.get((local, k))
+                    args.append(probe if k == i else (hint[0] if hint else g_arg(r, q, ver, hint)))
+                cases.append({'ver': ver, 'fn': fn, 'arity': arity, 'args': args, 'via': 'static', 'ctx': 'elem'})
     return cases
 
 
